@@ -5,7 +5,7 @@ from concurrent.futures import ThreadPoolExecutor
 from . import build
 
 VERIF = build.VERIF
-EVID = os.path.join(VERIF, "evidence")
+EVID = os.environ.get("VERIF_EVIDENCE_DIR") or os.path.join(VERIF, "evidence")   # seedcheck points this elsewhere so that runs against patched trees never touch the committed evidence
 WITNESS = os.path.join(EVID, "witness")
 WORK = os.path.join(VERIF, ".work")
 NWORKERS = int(os.environ.get("VERIF_WORKERS", "16"))
